@@ -12,6 +12,18 @@ T = {
  "C06": (True, "E1", "explicit-state model checking (stateright BFS to fixpoint from every raw state) + bounded-exhaustive DFS over operation histories, on the real ring buffers vs a VecDeque reference",
          "Every valid raw state (start,len)/first of capacities 1..6 (quick) / 1..8 (thorough) x every operation of the alphabet is executed on the real Bounded/Fixed buffer (window-with-canaries, Vec, Box, array storage) and compared with a VecDeque reference; successor states are re-extracted with into_raw_parts and the search runs to fixpoint, so histories of any length over those capacities are covered. A second, unmerged DFS replays every history to depth 5/6 without any state abstraction.",
          "Capacities above 8 are not explored (no capacity-specific branch in the code, but that is an argument, not a check). Trusted: rustc/LLVM, VecDeque, stateright BFS, data independence of the buffers for the merged run.", "DESIGN.md §4 C06"),
+ "C10": (True, "E2", "bounded-exhaustive enumeration of (format, channel count N, length L) and length pairs on the real slice-view functions, with a counting allocator as observer",
+         "For all 14 sample formats x N=1..32 x L=0..3N+2 the shared, mutable and boxed views are executed and compared with index arithmetic, pointer identity and live-heap accounting; in-place slice ops for every length pair up to 5 over 6 frame types (panic-before-modify on mismatch).",
+         "L is bounded by 3N+2 (the code has no length-specific branch other than the divisibility test). Trusted: rustc/LLVM, the counting allocator (self-tested at start-up).", "DESIGN.md §4 C10"),
+ "C11": (True, "E1", "explicit-state model checking (stateright BFS to fixpoint over detector states, witness-history replay on the real Rms) in std and no_std builds + bounded-exhaustive DFS over non-dyadic histories",
+         "All reachable (first, window, running-sum) states of the real Rms detector over exact dyadic alphabets, window N=1..3 (quick) / 1..4 (thorough), five frame formats, both build configurations; every next/next_squared/current/reset from every state against the exact mean of the last N squares and exact internal-state invariants. Non-dyadic inputs: every history to depth 2N+2 plus labelled long runs; the signal adaptor in the std build.",
+         "Inputs outside the alphabets are covered only to depth 2N+2 and by single long runs. Trusted: libm sqrt (std), f64 recomputation as reference, stateright BFS.", "DESIGN.md §4 C11"),
+ "C15": (True, "E2", "exhaustive enumeration of operand pairs (all 2048^2 for the 11-bit types, boundary lattice squared for wider types) on the real operators in two build profiles against i128 modular arithmetic",
+         "Every operand pair of I11/U11 and every i16 for construction; documented boundary lattices for 20/24/48-bit types; all 35 widening From impls over their complete source domains; run in a release profile (wrap expected) and a debug-assertions profile (panic expected).",
+         "20/24/48-bit operand spaces are covered on a lattice, not completely. A build with debug assertions but without overflow checks is not explored. Trusted: rustc/LLVM, i128 arithmetic.", "DESIGN.md §4 C15"),
+ "C20": (True, "E2", "exhaustive enumeration of (L, bin, hop) schedules and of f32 phases on the real window code against closed forms",
+         "Every (L<=24/40, bin, hop) x 2 windows x 3 frame formats: chunk count, chunk contents and size_hint before every next(); Hann at every f32 phase in [0,1] (thorough) or a 2^21-pattern grid (quick) and on f64 grids; Window iterator for n up to 64/1024.",
+         "L bounded; f64 phases on a grid. Trusted: libm cos.", "DESIGN.md §4 C20"),
 }
 ALL = ["C%02d" % i for i in range(1, 21)]
 
